@@ -341,6 +341,11 @@ func (d *Datastore) lowlevelTransactionSet(ctx context.Context, transaction *typ
 				deletesOwner = oldIntent.GetPathSet().GetPaths()
 			}
 		}
+		if oldPriority == intent.GetPriority() {
+			// the cache keeps the former version of a rewritten entry (the keys differ in
+			// their timestamp), so the entries that get rewritten are removed first.
+			deletesOwner = append(deletesOwner, updatesOwner.ToPathSet().GetPaths()...)
+		}
 
 		// modify intended store per intent, remove the outdated entries of the old version first
 		if len(deletesOwner) > 0 {
